@@ -177,7 +177,8 @@ Elements are delimited without validating their inside: a string runs to its clo
 honoured), an array/object to its matching bracket (strings inside honoured), any other scalar to the next
 `,` `]` `}` or white space.  That is all the providers need from the decoder for documents whose elements are
 valid JSON values (the generators only produce such elements; malformed documents are malformed at the top
-level). -/
+level).  That the scanner returns exactly the element for EVERY well-formed JSON text (Model/JsonText.lean) is
+`Proofs.JsonScan.scanValue_render`; the token lists of whole documents are `jsonLex_array` / `jsonLex_object`. -/
 
 def isWs (b : UInt8) : Bool := b == 0x20 || b == 0x09 || b == 0x0A || b == 0x0D
 
